@@ -8,6 +8,33 @@ PY = '/venv/bin/python'
 
 # id -> (engine, category, technique, text, note, design_ref)
 CHECKS = {
+    'C02': ('E-enum', 'exploration',
+            'deviation-bounded exhaustive enumeration of scope states x query grammar; every returned candidate is claimed on the real service',
+            'Same scope states and query grammar as C03 at microversions 1.10, 1.12, 1.17, 1.27, 1.29, 1.34, 1.36, 1.39; every returned allocation '
+            'request is checked for shape (an assignment of each group to its mapped providers must reproduce the returned amounts exactly; per-'
+            'class totals equal the request), its provider summaries are compared with the raw rows (capacity, used, traits, classes, parent/'
+            'root per version), and it is sent unchanged as PUT /allocations/{new consumer} on a fresh restore of the same state, which must '
+            'answer 204. The grammar always contains groups overlapping on a resource class (shared-object hazard of consolidation).',
+            'scope and joint deviation bound as in C03; capacity in summaries is int((total - reserved) * ratio) as documented',
+            'DESIGN.md 5.C02'),
+    'C13': ('E-enum', 'exploration',
+            'complete enumeration of scope states x filter combinations on the real service against a brute-force oracle over the rows',
+            'Scope-enumerated states (6 topologies x <=1 (quick) / <=2 (thorough) decoration deltas) x every single value, every pair (thorough: '
+            'every triple) and the all-six-active combinations of the filters name, uuid, in_tree, member_of (repeated, in:, !, !in:), required '
+            '(repeated, in:, !) and resources (amounts hitting each of capacity, min_unit, max_unit, step_size in isolation) at 1.39 and at the '
+            'microversions where each filter appeared or changed; the returned uuid set must equal the set computed from the raw rows, unknown '
+            'in_tree/uuid/aggregates give an empty list and unknown traits/classes 400.',
+            'decorated states only get the queries their delta can influence (recorded in the evidence); double-precision capacity arithmetic',
+            'DESIGN.md 5.C13'),
+    'C20': ('E-enum', 'exploration',
+            'exhaustive enumeration of limits and of every answer sequence of the random source on the real service',
+            'For every (state, query) of the C03 grammar with 1 <= M <= 6 results: every limit 1..M+1 with randomisation off (identical request '
+            'twice, prefix of the unlimited list) and on, where the module-level random source is replaced by a scripted random.Random whose '
+            '_randbelow answers are enumerated depth-first, so every outcome of random.sample / shuffle is produced (all limits for M <= 4, limits 1-2 '
+            'for M in 5..6, every shuffle for M <= 4); each result must have exactly min(N, M) distinct members of the unlimited set and '
+            'summaries for every provider they name.',
+            'random source owned through the module attribute research_context.random; scope as in C03',
+            'DESIGN.md 5.C20'),
     'C03': ('E-enum', 'exploration',
             'deviation-bounded exhaustive enumeration of scope states x query grammar on the real service against a brute-force oracle',
             'States from the scope enumerator (6 base topologies: flat, nested depth 2 and 3, sharing, nested + sharing through a non-root '
